@@ -29,6 +29,16 @@ func (n *normaliser) canonCompare(fd *ast.FuncDecl) {
 				c.Replace(rep)
 				n.p.mutated = true
 			}
+		case *ast.SliceExpr:
+			// x[0:n] is x[:n]
+			if x.Low != nil {
+				if tv, ok := n.info.Types[x.Low]; ok && tv.Value != nil && tv.Value.Kind() == constant.Int {
+					if v, exact := constant.Int64Val(tv.Value); exact && v == 0 {
+						x.Low = nil
+						n.p.mutated = true
+					}
+				}
+			}
 		case *ast.BinaryExpr:
 			if mirrored, ok := mirrorOp(x.Op); ok && n.constOrNil(x.X) && !n.constOrNil(x.Y) {
 				x.X, x.Y, x.Op = x.Y, x.X, mirrored
